@@ -19,6 +19,10 @@ CLAIMED = {
             "For all unit quaternions / all angle triples (24 conventions, regular and exact-gimbal branch) / all axes, points, affine matrices inside the stated boxes the round trips and group laws hold on every path of the real code. "
             "The branches selected by the largest diagonal element and the gimbal threshold are paths, not samples. Bounded only by the stated boxes and the sub-space union for compose/decompose.",
             TRUSTED + "angles modulo 2 pi; eigh/svd based paths (quaternion_from_matrix(isprecise=False), rotation_from_matrix, align_vectors, fix_rigid repair), slerp interior and decompose_matrix with symbolic angles are not claimed; gimbal band 0<|cos b|<=8.9e-16 not claimed."),
+    "C06": ("other", "DESIGN.md#c06", "symbolic execution of the real trimesh.grouping code on 64-bit bit-vectors (numpy int64 wrap semantics) and reals; sorting by comparison forking; z3 (bit-vector / LIA) decides each path; replay on the float code",
+            "For EVERY int64 value (bit-vectors: magnitudes below, at and above every packing limit are interior points) and small row counts the grouping primitives return exactly the partition given by element-wise comparison; "
+            "the bit packing of hashable_rows is shown injective on exactly the range the code's own check admits, the np.void fallback elsewhere. Bounded by rows (3-4), columns (1-5), elements (4-6).",
+            TRUSTED + "np.void/structured views compare like row tuples (numpy contract, stubbed by RowKey); sort order of groups is not part of the claim; unique_bincount values concretised (< 5); larger arrays not claimed."),
 }
 
 NOT_APPLICABLE = {
@@ -75,7 +79,7 @@ def main():
     print("not applicable / pending:", [n["property_id"] for n in na])
 
 
-SOURCE_COMMITS = []
+SOURCE_COMMITS = []  # no hook commits; fix: commits in /repo are listed in known_findings.json
 
 if __name__ == "__main__":
     main()
